@@ -255,7 +255,7 @@ func TestC15(t *testing.T) {
 	col := evd.New("C15", cfg)
 	defer col.Flush()
 	sec, min := time.Second, time.Minute
-	twin := hist.Profile{Name: "twin", Ops: 120, Topics: 2, Subs: 4, POrdered: 0.4, PFilter: 0.3, PDL: 0.3, PRetry: 0.6, ProbeOnly: true,
+	twin := hist.Profile{Name: "twin", Ops: 120, Topics: 2, Subs: 4, POrdered: 0.4, PFilter: 0.3, PDL: 0.3, PRetry: 0.6, ProbeOnly: true, NoTick: true,
 		Retentions: []time.Duration{0, 10 * min, 20 * sec}, Keys: []string{"", "k1", "k2"},
 		W: weights(map[string]int{"job": 45, "expire-job": 2, "jump-long": 2, "delete-sub": 3, "create-sub": 4, "delete-topic": 2, "create-topic": 2,
 			"seek-time": 0, "seek-snapshot": 0, "snapshot": 2, "stream": 0, "pull-due": 10})}
